@@ -2,7 +2,7 @@
    Statements only.  Model: Vrf.Model (one route per VPN key at a time; what a peer holds is a set of keys) and Vrf.Index
    (the route-target index of the VPN table with several sources per destination, no ADD-PATH). *)
 From Coq Require Import List ZArith Bool.
-From Verif Require Import Vrf.Model Vrf.Proofs Vrf.Index.
+From Verif Require Import Vrf.Model Vrf.Proofs Vrf.Index Vrf.IndexProgram Generated.C17Idx Vrf.IndexProgramProofs.
 Import ListNotations.
 Open Scope Z_scope.
 
@@ -58,6 +58,15 @@ Theorem C17_index_candidates_are_the_selected_routes : forall h t k r asn, ih_ok
   (In (k, r) (paths_by_rt (irun iinit h) t) <-> best (i_cands (irun iinit h)) k = Some r /\ carries (asn, Some t) r = true).
 Proof. exact paths_by_rt_are_the_selected_routes_carrying. Qed.
 Print Assumptions C17_index_candidates_are_the_selected_routes.
+
+(* the statement structure of updateVPNIdx, REGENERATED from the source on every run (Generated/C17Idx.v), executed for
+   an update of a table whose paths carry no path identifier, is exactly the index step of the model *)
+Theorem C17_generated_index_update_is_the_model_step : forall s k nl same withdraw oldp newp,
+  run_program vpnidx_program (plain_flags withdraw same (is_some (best (i_cands s) k)) (is_some (hd_error nl)))
+              (mkVals oldp newp (ent k (best (i_cands s) k)) (ent k (hd_error nl))) (i_idx s)
+  = Some (i_idx (istep s (IUpd k nl same))).
+Proof. exact generated_update_is_istep. Qed.
+Print Assumptions C17_generated_index_update_is_the_model_step.
 
 (* non-vacuity, and the variant "a withdrawal only unregisters" fails the invariant (two sources, the selected one withdrawn) *)
 Example C17_index_nonvacuous :
